@@ -507,8 +507,41 @@ def stale_check(svg, tier):
     return stale.Stale(svg, measures, kinds=kinds, extra_mutations=extra, depth=2)
 
 
+def refused_check(svg):
+    """round shapes switch their apply flag off while they build their arcs: a query that takes the degenerate early exit
+    (zero radius) or that is refused (lengths not rendered yet) must leave the shape as it was"""
+    from props import failsafe
+
+    def state(o):
+        return [repr(o), o.apply, o.bbox(with_stroke=True), o.implicit_rx, o.implicit_ry, repr(o.implicit_center),
+                o.implicit_stroke_width, [repr(s) for s in o.segments()], o == type(o)(o)]
+    sc = []
+    for kind, mk in (("circle", lambda: svg.Circle(4, -3, 0, transform="scale(3) translate(1,1)", stroke="red", stroke_width=2)),
+                     ("ellipse", lambda: svg.Ellipse(4, -3, 0, 2.5, transform="rotate(30) scale(2,3)", stroke="red", stroke_width=2)),
+                     ("ellipse-ry0", lambda: svg.Ellipse(4, -3, 2.5, 0, transform="scale(0.5)", stroke="blue", stroke_width=4))):
+        for qn, q in (("segments()", lambda o: list(o.segments())), ("d()", lambda o: o.d()), ("bbox()", lambda o: o.bbox()),
+                      ("Path(shape)", lambda o: svg.Path(o)), ("== other", lambda o: o == svg.Circle(1, 1, 1)),
+                      ("length()", lambda o: o.length())):
+            def follow(o):
+                o.rx = 5.0
+                o.ry = 5.0 if kind == "circle" else 2.0
+                return state(o)
+            sc.append(dict(name="%s with a zero radius: %s, then give it radii" % (kind, qn), fresh=mk, attempt=q, must_raise=False,
+                           follow={"state": follow, "copy state": lambda o, f=follow: (f(o), state(__import__("copy").copy(o)))[-1]}))
+    for kind, mk in (("circle-unrendered", lambda: svg.Circle(cx="1in", cy=30, r=10, transform="scale(3)", stroke="red", stroke_width=2)),
+                     ("ellipse-unrendered", lambda: svg.Ellipse(cx=40, cy=30, rx="10%", ry="5%", transform="scale(2,3)", stroke="red",
+                                                                stroke_width=2))):
+        for qn, q in (("bbox()", lambda o: o.bbox()), ("d()", lambda o: o.d()), ("Path(shape)", lambda o: svg.Path(o)),
+                      ("segments()", lambda o: list(o.segments()))):
+            def follow2(o):
+                o.render(ppi=96, width=200, height=100)
+                return state(o)
+            sc.append(dict(name="%s: %s before render()" % (kind, qn), fresh=mk, attempt=q, follow={"render, then state": follow2}))
+    return failsafe.Refused(svg, sc)
+
+
 def build(tier, seed, svg):
-    return [Shapes(svg, tier), ShapesMag(svg, tier), AutoRadius(svg), SharedMatrix(svg), stale_check(svg, tier)]
+    return [Shapes(svg, tier), ShapesMag(svg, tier), AutoRadius(svg), SharedMatrix(svg), stale_check(svg, tier), refused_check(svg)]
 
 
 def m_round_direction(d):
